@@ -181,6 +181,11 @@ impl<T, E> UnwrapExt<T> for Result<T, E> {
     fn unwrap_(self) -> (r: T) ensures self is Ok, self->Ok_0 == r { unimplemented!() }
 }
 
+pub trait UnwrapErrExt<E>: Sized { fn unwrap_err_(self) -> E; }
+impl<T, E> UnwrapErrExt<E> for Result<T, E> {
+    #[verifier::external_body]
+    fn unwrap_err_(self) -> (r: E) ensures self is Err, self->Err_0 == r { unimplemented!() }
+}
 pub trait UnwrapOrDefaultExt<T>: Sized { fn unwrap_or_default_(self) -> T; }
 impl<E> UnwrapOrDefaultExt<Uint128> for Result<Uint128, E> {
     #[verifier::external_body]
